@@ -195,7 +195,7 @@ UNITS = [
       unwind=4, timeout=600, object_bits=12, level='PB', bound='group list of at most 4096 groups (the format allows 127)',
       assumes=['Parameters::groupIdx reports the ghost fact "a group of that name exists at index i" (first match: unit '
                'Parameters_groupIdx); Group::parameter(p) refuses an untyped parameter before any change and otherwise stores it '
-               '(unit Group_parameter); Parameters::group(Group) appends a group that is not there yet (assumed: no unit of its own); '
+               '(unit Group_parameter); Parameters::group(Group) appends a group that is not there yet (bounded unit B_Parameters_group_merge); '
                'updateHeader does not throw on a valid object (unit c3d_updateHeader)']),
     U('B_c3d_point_frames', 'contracts/bounded_columns.c', 'h_B_c3d_point_frames', [], ['C06', 'C07', 'C10', 'C05', 'C08', 'C13'], mode='bmc',
       stubs={'Parameters__group__str': 'stubc_group', 'Group__parameter__str': 'stubc_parameter',
@@ -215,6 +215,13 @@ UNITS = [
       props={'memsafe': ['C13'], 'ub': ['C13']},
       assumes=['plain symbolic execution of the real c3d::analog(frames); by-name accessors = ghost directory; SubFrame::channel(c) '
                '(append) and updateParameters() are recording stubs; every stored frame carries the header\'s sub-frame count (C05)']),
+    U('B_Parameters_group_merge', 'contracts/bounded_group_merge.c', 'h_B_Parameters_group_merge', [], ['C09', 'C13'], mode='bmc',
+      stubs={'vf_vec_Group_push_back': 'stubg_push_back', 'Group__parameter__Parameter': 'stubg_Group_parameter'},
+      unwind=5, timeout=600, level='B', object_bits=12,
+      bound='at most 3 groups, 2 parameters in the inserted group, names of at most 1 character',
+      props={'memsafe': ['C13'], 'ub': ['C13']},
+      assumes=['plain symbolic execution of the real Parameters::group(const Group&); push_back and Group::parameter(p) are recording '
+               'stubs (unit Group_parameter); group names are unique (VALID_C3D)']),
     U('Parameters_write', WR, 'h_Parameters_write', ['Parameters__write/contract_Parameters__write'],
       ['C01', 'C03', 'C13', 'C14', 'C10'], replace=['Group__write/contract_abs_Group__write'], unwind=5, loops=True, timeout=900,
       pre_unwind={'vf_stream_write.0': 5, 'Parameters__write.0': 3},
